@@ -170,6 +170,11 @@ namespace GeographicLib {
       Add(0);                   // This renormalizes the result.
       _s = remainder(_s, y);
       Add(0);
+      // If the high word is on the boundary, +/-y/2, the low word decides
+      // which of the two representatives is in [-y/2, y/2].
+      using std::fabs; using std::copysign; using std::signbit;
+      if (fabs(_s) == fabs(y) / 2 && _t != 0 && signbit(_t) == signbit(_s))
+        _s -= copysign(fabs(y), _s);
       return *this;
     }
     /**
